@@ -316,7 +316,8 @@ func (g *gen) emitCall(b *fileB, ind int, callee string, inMain bool, form *stri
 
 var failKinds = []string{"throw-string", "throw-error", "throw-typed", "throw-var", "div-zero", "bad-operand",
 	"builtin-int", "builtin-append", "argc-few", "argc-many", "not-callable", "index-oob", "not-indexable",
-	"slice-oob", "not-iterable", "throw-folded", "const-div-zero", "const-bad-operand", "const-index"}
+	"slice-oob", "not-iterable", "throw-folded", "const-div-zero", "const-bad-operand", "const-index",
+	"go-plain-error", "go-runtime-error"}
 
 func (g *gen) emitFail(b *fileB, ind int, kind *string) []expFrame {
 	k := g.pick("failkind", len(failKinds))
@@ -332,9 +333,22 @@ func (g *gen) emitFail(b *fileB, ind int, kind *string) []expFrame {
 			k = 4 // div-zero
 		}
 	}
+	if g.allowCB && b.name == mainName && g.pick("prefer-go-fail", 4) == 0 {
+		k = len(failKinds) - 2 + g.pick("go-fail", 2)
+	}
+	if !(g.allowCB && b.name == mainName) {
+		switch failKinds[k] {
+		case "go-plain-error", "go-runtime-error": // need the embedder function CALL (declared in main only)
+			k = 0
+		}
+	}
 	*kind = failKinds[k]
 	one := func(l int) []expFrame { return []expFrame{{File: b.name, Lo: l, Hi: l}} }
 	switch failKinds[k] {
+	case "go-plain-error":
+		return one(b.add(ind, g.id("y")+` := CALL("plain")`))
+	case "go-runtime-error":
+		return one(b.add(ind, `CALL("rt")`))
 	case "const-div-zero": // the constant identifier is the LEFT operand (the expression takes its position from it)
 		z := g.id("z")
 		b.add(ind, z+" := 0")
